@@ -25,7 +25,7 @@ m = {
  "version": 1,
  "setup_cmd": "test -d .deps/z3 || /venv/bin/pip install -q --no-index --find-links /opt/veriftools/wheels --target .deps z3-solver",
  "hooks": {"guard": "FACTORYSIMPY_VERIF", "enable": "no source hooks: all instrumentation is applied to instances and module names from the harness side; ./vf exports FACTORYSIMPY_VERIF=1 (unused by /repo)",
-           "baseline_off_cmd": "cd /repo && /venv/bin/python -m pytest -ra -q -p no:cacheprovider --timeout=900 --continue-on-collection-errors tests",
+           "baseline_off_cmd": "cd /repo && /venv/bin/python -m pytest -ra -q -p no:cacheprovider --timeout=900 --continue-on-collection-errors",
            "source_commits": [], "add_only": True},
  "engines": [{"name": "symx", "path": "/verif/vfy/symx.py", "serves_properties": sorted(claimed),
               "kind_free_text": "dynamic symbolic execution of the real Python code: float/int subclasses carrying linear terms, every comparison decided by z3 (SMT-LIB2 via z3 5.1 python wheel), DFS by re-execution over 16 processes, counterexamples replayed with plain numbers"}],
